@@ -114,28 +114,33 @@ def rule_ent(ctx, py):
 
 def rule_radix_py(ctx, py):
     R = "C15.RADIX"
+    from .. import pysym
+    P = lambda t: ast.parse(t, mode="eval").body
     f = py.fn("rdgridspace.RDGridSpace.get_cell_index")
     n = 0
-    for r in [x for x in ast.walk(f) if isinstance(x, ast.Return)]:
-        e = r.value
-        if isinstance(e, ast.Call):   # int(position)
-            continue
-        p = py_poly(e)
-        # x + y*w + z*w*h
-        terms = {}
-        for m, c in p.t.items():
-            names = [a for a, _ in m]
-            coord = [a for a in names if py_axis_tokens(ast.parse(a, mode="eval")) and
-                     py_axis_tokens(ast.parse(a, mode="eval"))[0][1] == "coord"]
-            ext = sorted(a for a in names if a not in coord)
-            if len(coord) != 1 or c != 1:
-                ctx.error(R, "get_cell_index: term %r not of the form coord*stride" % (m,))
-            ax = py_axis_tokens(ast.parse(coord[0], mode="eval"))[0][0]
-            terms[ax] = ext
+    seen = set()
+    outs = []
+    for r in [x for x in ast.walk(f) if isinstance(x, ast.Return) and x.value is not None]:
+        v = r.value
+        while isinstance(v, ast.Call) and isinstance(v.func, ast.Name) and v.func.id == "int" and len(v.args) == 1:
+            v = v.args[0]
+        defs = [a for a in ast.walk(f) if isinstance(a, ast.Assign) and len(a.targets) == 1 and isinstance(v, ast.Name)
+                and isinstance(a.targets[0], ast.Name) and a.targets[0].id == v.id]
+        if len(defs) > 1:           # one result variable assigned per branch, single return
+            outs += [(a, a.value) for a in defs]
+        else:
+            outs.append((r, r.value))
+    for r, val in outs:
+        got = pysym.frat(val, f)
+        forms = {"number": "position", "array": "position[0] + position[1] * self.w + position[2] * self.w * self.h",
+                 "object": "position.x + position.y * self.w + position.z * self.w * self.h"}
+        hit = [k for k, t in forms.items() if got.equals(pysym.rat(P(t)))]
         n += 1
-        ok = terms == {0: [], 1: ["self.w"], 2: ["self.h", "self.w"]}
-        ctx.check(ok, R, r, f._qual, pyfe.src(e)[:90], "index = x + y*w + z*w*h",
-                  "strides %r are not (1, w, w*h)" % terms)
+        ctx.check(bool(hit), R, r, f._qual, pyfe.src(val)[:90], "index = x + y*w + z*w*h (%s form)" % (hit[0] if hit else "?"),
+                  "the returned index %r is not x + y*w + z*w*h of the given position" % (got,))
+        seen |= set(hit)
+    ctx.check(seen == {"number", "array", "object"}, R, f, f._qual, "all three position forms are encoded", "", "a position form is "
+              "missing: %s" % sorted({"number", "array", "object"} - seen))
     # decode
     g = py.fn("rdgridspace.RDGridSpace.get_cell_coordinates")
     defs = {}
@@ -144,14 +149,14 @@ def rule_radix_py(ctx, py):
                 st.targets[0].id in ("x", "y", "z"):
             defs[st.targets[0].id] = st
     ctx.need(set(defs) == {"x", "y", "z"}, R, "get_cell_coordinates: x, y, z definitions not found")
-    want = {"x": "cell_index % self.w", "y": "cell_index % (self.w * self.h) / self.w",
-            "z": "cell_index / (self.w * self.h)"}
+    want = {"x": ("cell_index % self.w",), "y": ("cell_index % (self.w * self.h) / self.w", "cell_index / self.w % self.h"),
+            "z": ("cell_index / (self.w * self.h)", "cell_index / self.w / self.h")}
     for k, st in sorted(defs.items()):
         got = pya.ctext(st.value).replace("//", "/")
         n += 1
-        ctx.check(norm_ws(got) == norm_ws(want[k]), R, st, g._qual, pyfe.src(st)[:80],
-                  "%s = %s (inverse of x + y*w + z*w*h)" % (k, want[k]),
-                  "%s is decoded as `%s`, expected `%s`" % (k, got, want[k]))
+        ctx.check(any(norm_ws(got) == norm_ws(w) for w in want[k]), R, st, g._qual, pyfe.src(st)[:80],
+                  "%s = %s (inverse of x + y*w + z*w*h)" % (k, want[k][0]),
+                  "%s is decoded as `%s`, expected `%s`" % (k, got, want[k][0]))
     ctx.floor(R, 5)
 
 
